@@ -1,5 +1,7 @@
 import KV.Base.Sha256
 import KV.Proofs.PartSet
+import KV.Proofs.HeaderWire
+import KV.Base.Keccak
 import KV.Model.ValidateCache
 /-! # C13 — Blocks are tamper-evident and reassemble exactly from their parts
 
@@ -9,10 +11,11 @@ is a fixed output length (`∀ x, (H x).length = hs`; `lib/merkle.Sum` returns a
 security statement has the collision-extraction form `claim ∨ ∃ a b, a ≠ b ∧ H a = H b`
 (`Collision H`, the pair is constructed by the proof).
 
-The block-level clauses of C13 (header hash binds every header field, `ValidateBasic` binds the
-body to the header, `VerifyCommit` binds the commit's height/round/block id, wire and database
-round trips) are covered by the oracle harness on the real code (`kai/state/cstate/c13_test.go`);
-see `header_hash_binds_Statement` below for what is not proved here. -/
+Block level: `header_wire_injective` / `header_hash_binds` (the block hash binds all 13 header
+fields) and `commit_hash_binds_sigs` are proved over `KV.HeaderWire`; `ValidateBasic` binding the
+body to the header, `VerifyCommit` binding the commit's height/round/block id, and the wire and
+database round trips are covered by the oracle harness on the real code
+(`kai/state/cstate/c13_test.go`). -/
 namespace KV.Props.C13
 open KV KV.Merkle KV.PartSet
 
@@ -162,6 +165,23 @@ theorem no_domain_separation_counterexample (H : Bytes → Bytes) (a b : Bytes) 
     let leafH (x : Bytes) : Bytes := H (0x01 :: x)          -- leaf prefix = inner prefix
     innerHash H (leafH a) (leafH b) = leafH (leafH a ++ leafH b) := by
   simp [innerHash]
+
+/-- **finding C13-E1 (model side)**: the part-set header — second component of the block id — is a
+function of the *bytes*, not of the block: appending anything (an unknown protobuf field, which the
+decoder drops) to an encoding changes the Merkle root, short of a collision. Since consensus votes
+for the header of the received parts and block sync recomputes it from the canonical re-encoding,
+one block has several ids. -/
+theorem block_id_depends_on_encoding_counterexample (H : Bytes → Bytes) (hs : Nat)
+    (hfix : ∀ x, (H x).length = hs) (d extra : Bytes) (size : Nat) (hsz : 0 < size)
+    (hd : d ≠ []) (he : extra ≠ []) :
+    root H (split d size) ≠ root H (split (d ++ extra) size) ∨ ∃ a b, a ≠ b ∧ H a = H b := by
+  by_cases h : root H (split d size) = root H (split (d ++ extra) size)
+  · rcases partset_header_binds_data H hs hfix d (d ++ extra) size hsz hd (by simp [hd]) h with e | hc
+    · have : (d ++ extra).length = d.length := by rw [← e]
+      simp at this
+      exact absurd this he
+    · exact Or.inr hc
+  · exact Or.inl h
 
 /-! ## the part set -/
 
@@ -392,23 +412,106 @@ def validate_cache_sound_Statement {Hdr Body : Type} (hash : Hdr → Bytes)
       (seq.foldl (fun c x => (ValidateCache.validateBlock hash valid c x).2) []) b).1 = true →
     valid b = true
 
-/-! ## what is not proved here -/
+/-! ## the block hash binds every header field; the commit hash binds the signature list
 
-/-- Header-hash binding (extension, NOT proved in Lean): the block hash is
-`Keccak256(protobuf(header))`; the statement is that the protobuf wire encoding of the 13 header
-fields is injective, hence equal hashes give equal headers or a Keccak collision. Here `enc` stands
-for `Header.ToProto().Marshal()`; the statement is checked on the real code by the oracle
-(every single-field mutation of a valid block changes the hash or fails validation). -/
-def header_hash_binds_Statement {Header : Type} (enc : Header → Bytes) (K : Bytes → Bytes) : Prop :=
-  ∀ h1 h2 : Header, K (enc h1) = K (enc h2) → h1 = h2 ∨ ∃ a b, a ≠ b ∧ K a = K b
+`KV.HeaderWire` models the exact bytes `Header.Hash()` and `Commit.Hash()` hash (tied bit-exactly
+to the code by the differential, including the Keccak-256 / SHA-256 Merkle results). -/
 
-/-- the part that is immediate: binding follows from injectivity of the encoding -/
-theorem header_hash_binds_partial {Header : Type} (enc : Header → Bytes) (K : Bytes → Bytes)
-    (hinj : ∀ h1 h2, enc h1 = enc h2 → h1 = h2) : header_hash_binds_Statement enc K := by
-  intro h1 h2 h
-  by_cases he : enc h1 = enc h2
-  · exact Or.inl (hinj _ _ he)
-  · exact Or.inr ⟨_, _, he, h⟩
+/-- **injectivity of the header's wire encoding**: two headers with the same wire bytes are equal
+in all 13 fields (height, time = (seconds, nanos), num_txs, gas_limit, the three components of
+last_block_id, proposer_address and the seven hashes). No range hypothesis is needed beyond what
+`Marshal` itself enforces (a valid protobuf timestamp — otherwise `Header.Hash` panics). -/
+theorem header_wire_injective (a b : HeaderWire.Header) (x : Bytes)
+    (ha : HeaderWire.headerBytes a = some x) (hb : HeaderWire.headerBytes b = some x) : a = b :=
+  HeaderWire.headerBytes_inj ha hb
+
+/-- **header_hash_binds**: equal block hashes ⇒ equal header fields, or an explicit collision of
+the hash function `K` (Keccak-256 in the code). -/
+theorem header_hash_binds (K : Bytes → Bytes) (a b : HeaderWire.Header) (d : Bytes)
+    (ha : HeaderWire.blockHash K a = some d) (hb : HeaderWire.blockHash K b = some d) :
+    a = b ∨ ∃ x y, x ≠ y ∧ K x = K y := by
+  unfold HeaderWire.blockHash at ha hb
+  cases hxa : HeaderWire.headerBytes a with
+  | none => rw [hxa] at ha; simp at ha
+  | some xa =>
+    cases hxb : HeaderWire.headerBytes b with
+    | none => rw [hxb] at hb; simp at hb
+    | some xb =>
+      rw [hxa] at ha; rw [hxb] at hb
+      simp only [Option.map_some, Option.some.injEq] at ha hb
+      by_cases he : xa = xb
+      · left; subst he; exact HeaderWire.headerBytes_inj hxa hxb
+      · right; exact ⟨xa, xb, he, ha.trans hb.symm⟩
+
+/-- the hash is defined (no panic) exactly for headers with a valid protobuf timestamp -/
+theorem header_hash_defined (K : Bytes → Bytes) (h : HeaderWire.Header) :
+    (∃ d, HeaderWire.blockHash K h = some d) ↔ h.time.valid = true := by
+  unfold HeaderWire.blockHash HeaderWire.headerBytes
+  by_cases hv : h.time.valid = true <;> simp [hv]
+
+/-- injectivity of a commit signature's wire encoding (flag, validator address, timestamp,
+signature) -/
+theorem commit_sig_wire_injective (a b : HeaderWire.CommitSig) (x : Bytes)
+    (ha : HeaderWire.sigBytes a = some x) (hb : HeaderWire.sigBytes b = some x) : a = b :=
+  HeaderWire.sigBytes_inj ha hb
+
+/-- **commit_hash_binds_sigs**: equal `Commit.Hash()` of two non-empty signature lists ⇒ the
+lists are equal (same length, every flag / address / timestamp / signature), or an explicit
+collision of the Merkle hash `H`. (The commit's own height, round and block id are *not* under
+this hash: they are bound by `VerifyCommit`, see the oracle and findings F8/F22.) -/
+theorem commit_hash_binds_sigs (H : Bytes → Bytes) (h32 : ∀ x, (H x).length = 32)
+    (xs ys : List HeaderWire.CommitSig) (hx : xs ≠ []) (hy : ys ≠ []) (d : Bytes)
+    (ha : HeaderWire.commitHash H xs = some d) (hb : HeaderWire.commitHash H ys = some d) :
+    xs = ys ∨ ∃ a b, a ≠ b ∧ H a = H b := by
+  unfold HeaderWire.commitHash at ha hb
+  cases hxa : HeaderWire.allSigBytes xs with
+  | none => rw [hxa] at ha; simp at ha
+  | some bx =>
+    cases hxb : HeaderWire.allSigBytes ys with
+    | none => rw [hxb] at hb; simp at hb
+    | some by' =>
+      rw [hxa] at ha; rw [hxb] at hb
+      simp only [Option.map_some, Option.some.injEq] at ha hb
+      have nx := HeaderWire.allSigBytes_ne_nil hx hxa
+      have ny := HeaderWire.allSigBytes_ne_nil hy hxb
+      have len32 : ∀ l : List Bytes, l ≠ [] → bytesToHash (root H l) = root H l := by
+        intro l hl
+        obtain ⟨z, hz⟩ := rootAux_isHash H _ l hl (Nat.le_refl _)
+        have : (root H l).length = 32 := by unfold root; rw [hz]; exact h32 _
+        simp [bytesToHash, this]
+      rw [len32 _ nx] at ha
+      rw [len32 _ ny] at hb
+      rcases root_inj H 32 h32 bx by' nx ny (ha.trans hb.symm) with he | hc
+      · left; subst he; exact HeaderWire.allSigBytes_inj xs ys _ hxa hxb
+      · exact Or.inr hc
+
+/-- the two composed: the block hash binds the signatures of the last commit (through
+`Header.LastCommitHash`, which `Block.ValidateBasic` compares with `LastCommit.Hash()`), short of
+a collision of `K` or of `H`. -/
+theorem block_hash_binds_last_commit_sigs (K H : Bytes → Bytes) (h32 : ∀ x, (H x).length = 32)
+    (a b : HeaderWire.Header) (d : Bytes)
+    (ha : HeaderWire.blockHash K a = some d) (hb : HeaderWire.blockHash K b = some d)
+    (xs ys : List HeaderWire.CommitSig) (hx : xs ≠ []) (hy : ys ≠ [])
+    (hxa : HeaderWire.commitHash H xs = some a.lastCommitHash)
+    (hyb : HeaderWire.commitHash H ys = some b.lastCommitHash) :
+    xs = ys ∨ (∃ x y, x ≠ y ∧ K x = K y) ∨ ∃ x y, x ≠ y ∧ H x = H y := by
+  rcases header_hash_binds K a b d ha hb with he | hc
+  · subst he
+    rcases commit_hash_binds_sigs H h32 xs ys hx hy _ hxa hyb with h1 | h2
+    · exact Or.inl h1
+    · exact Or.inr (Or.inr h2)
+  · exact Or.inr (Or.inl hc)
+
+/-- build-time evaluation (compiled, not a kernel proof): the wire bytes and Keccak-256 of a small
+header, and two headers differing in one field -/
+def headerCheck : Bool :=
+  let z : HeaderWire.Header := ⟨1, ⟨0, 0⟩, 0, 0, ⟨[], 0, []⟩, [], [], [], [], [], [], [], []⟩
+  decide ((HeaderWire.headerBytes z).map toHex = some "180122002a021200") &&
+  decide ((HeaderWire.blockHash keccak256 z).map toHex =
+    some "840de47bc394db14e0b0c228ec2bfbc15ff381638575a4096ca7385048166b20") &&
+  decide (HeaderWire.headerBytes { z with numTxs := 1 } ≠ HeaderWire.headerBytes z) &&
+  decide (HeaderWire.headerBytes { z with time := ⟨253402300800, 0⟩ } = none)
+#guard headerCheck
 
 /-! ## non-vacuity -/
 
